@@ -362,7 +362,9 @@ func (g *generator) genFree(w *World) (Op, bool) {
 }
 
 func (g *generator) genFreeN(w *World) (Op, bool) {
-	ok := func(s int) bool { return w.sinfo[s].live && w.sinfo[s].res < 0 && !w.inPendingMove(s) && w.sinfo[s].userMaps == 0 }
+	ok := func(s int) bool {
+		return w.sinfo[s].live && w.sinfo[s].res < 0 && !w.inPendingMove(s) && w.sinfo[s].userMaps == 0
+	}
 	start := g.r.intn(maxSlots)
 	for i := 0; i < maxSlots; i++ {
 		s := (start + i) % maxSlots
@@ -411,6 +413,12 @@ func (g *generator) genMkPool(w *World) (Op, bool) {
 	maxB := 0
 	if r.chance(60) {
 		maxB = r.rangeIncl(max(1, minB), 4)
+	}
+	if flags&pfLinear != 0 && r.chance(50) {
+		maxB = 1
+		if minB > 1 {
+			minB = 1
+		}
 	}
 	minAlign := 0
 	if r.chance(30) {
@@ -529,9 +537,9 @@ func (g *generator) genDefrag(w *World) (Op, bool) {
 	for g.dMovesLeft > 0 {
 		g.dMovesLeft--
 		i := g.dMovesLeft
-		if x := r.intn(100); x < 12 {
+		if x := r.intn(100); x < 15 {
 			return mkOp("dmove", d, i, mvIgnore), true
-		} else if x < 22 {
+		} else if x < 28 {
 			return mkOp("dmove", d, i, mvDestroy), true
 		}
 	}
@@ -835,7 +843,12 @@ func (g *generator) genNamed(w *World, name string) (Op, bool) {
 		if len(ps) == 0 {
 			return g.genMkPool(w)
 		}
-		return g.genAlloc(w, g.pickOf(ps), 0)
+		p := g.pickOf(ps)
+		extra := 0
+		if w.pools[p].flags&pfLinear != 0 && w.pools[p].maxBlocks == 1 && r.chance(35) {
+			extra = fUpperAddress // double stack
+		}
+		return g.genAlloc(w, p, extra)
 	case "allocn":
 		return g.genAllocN(w)
 	case "free":
